@@ -189,7 +189,7 @@ contract('verif:contracts/harness.py::compute_then_partials', ['C26'], DOT_LEMMA
          # is d c[r] / d a[r, i].  Directional derivative of compute == sum over the row's entries of partial * direction.
          ensures=["len(partials['c', 'a']) == nv * nl and len(partials['c', 'b']) == nv * nl",
                   "all(approx_h(outputs['c'][r].imag, Sum(nl, lambda i: partials['c', 'a'][r * nl + i] * inputs_cs['a'][r, i].imag + partials['c', 'b'][r * nl + i] * inputs_cs['b'][r, i].imag)) for r in range(nv))"],
-         modifies=["outputs['c']", 'partials'], inline={'compute', 'compute_partials'}, defs=DUAL, native=native_dot('DotProductComp'),
+         modifies=["outputs['c']", 'partials'], inline={'compute', 'compute_partials'}, defs=dict(DUAL, canary_timeout_ms=30000), native=native_dot('DotProductComp'),
          name='lemma:DotProductComp partials are the derivative of compute',
          canaries=[('partials w.r.t. a and b swapped', ("partials[product['c_name'], product['a_name']] = b.ravel()", "partials[product['c_name'], product['a_name']] = a.ravel()"), 'post', DOT + '::DotProductComp.compute_partials')])
 
